@@ -96,6 +96,10 @@ type cursor struct {
 	line         lineBreakClass // the Line Break Class at index i
 	nextLine     lineBreakClass // the Line Break Class at index i+1
 
+	// the Line Break Class following the rune at index i, past the combining marks
+	// attached to it by rule LB9 (only computed when rule LB25 needs it, otherwise equal to nextLine)
+	afterMarksLine lineBreakClass
+
 	// the last rune after spaces, used in rules LB14,LB15,LB16,LB17
 	// to match ... SP* ...
 	beforeSpaces lineBreakClass
